@@ -36,6 +36,8 @@ func main() {
 		os.Exit(runConcExplore(os.Args[2:]))
 	case "extract-replay":
 		os.Exit(runExtractReplay(os.Args[2:]))
+	case "tree-replay":
+		os.Exit(runTreeReplay(os.Args[2:]))
 	case "hashfuzz":
 		os.Exit(runHashFuzz(os.Args[2:]))
 	case "reader-replay":
